@@ -19,6 +19,9 @@ fn model() -> Model {
     m.vars.insert("x".into(), RV::Int(0));
     m.vars.insert("e0".into(), RV::Tuple(vec![]));
     m.vars.insert("e1".into(), RV::Tuple(vec![RV::Empty]));
+    m.vars.insert("u".into(), RV::Empty);
+    m.vars.insert("bt".into(), RV::Bool(true));
+    m.vars.insert("bf".into(), RV::Bool(false));
     m
 }
 
@@ -275,6 +278,8 @@ impl Phase for RandomSeq {
                     let t = *r.pick(&["_", "min", "math::pi", "len", "if"]);
                     Ast::Assign("=", t.into(), Box::new(Ast::Const(RV::Int(*k))))
                 },
+                // a variable that holds the empty value has a type like any other (the assignment fails, the chain stops)
+                3 | 4 if r.chance(1, 25) => Ast::Assign("=", "u".into(), Box::new(Ast::Const(RV::Int(*k)))),
                 3 | 4 => Ast::Assign("=", "x".into(), Box::new(Ast::Const(RV::Int(*k)))),
                 5 => Ast::Call("t".into(), Box::new(Ast::Const(RV::Int(*k)))),
                 6 => {
@@ -287,6 +292,12 @@ impl Phase for RandomSeq {
                     }
                 },
                 7 => Ast::Bin("+", Box::new(Ast::Read("x".into())), Box::new(Ast::Const(RV::Int(*k)))),
+                // a nested sequence as right-hand side of a boolean op-assignment whose target already holds the deciding
+                // value: the sequence is evaluated all the same
+                _ if r.chance(1, 4) => {
+                    let (op, t) = *r.pick(&[("||=", "bt"), ("&&=", "bf"), ("||=", "bf"), ("&&=", "bt")]);
+                    Ast::Assign(op, t.into(), Box::new(Ast::Group(Box::new(sequence(r, k, depth - 1)))))
+                },
                 _ => sequence(r, k, depth - 1),
             }
         }
